@@ -331,6 +331,12 @@ package expressions
 // appendToParam is exactly the rune sequence of the element (no trimming, splitting or re-parsing).
 //@ func processStatementArrays [C08]
 //@   check none
+// every iteration of the four element loops hands its element on (appendToParam) and closes the
+// parameter (nextParameter): no element is skipped, whatever it contains
+//@   loop 1 step calledsince("appendToParam") && calledsince("(*ParserT).nextParameter")
+//@   loop 2 step calledsince("appendToParam") && calledsince("(*ParserT).nextParameter")
+//@   loop 3 step calledsince("appendToParam") && calledsince("(*ParserT).nextParameter")
+//@   loop 4 step calledsince("appendToParam") && calledsince("(*ParserT).nextParameter")
 //@   at call appendToParam#1 assert arg0 == tree && len(arg1) == runecount(tǂ1[$idx]) && forall(j, 0, len(arg1), arg1[j] == runeat(tǂ1[$idx], j))
 //@   at call appendToParam#2 assert arg0 == tree && arg1 == tǂ2[$idx]
 //@   at call appendToParam#4 assert arg0 == tree && len(arg1) == runecount(unbox(sǂ1, string)) && forall(j, 0, len(arg1), arg1[j] == runeat(unbox(sǂ1, string), j))
